@@ -1226,12 +1226,6 @@ class UserActions(object):
 
     See `BulkAddOrUpdateRecord` for more details.
     """
-    if not require and not col_values:
-      return {
-        'recordIds': [],
-        'action': 'NONE',
-      }
-
     require = {k: [v] for k, v in require.items()}
     col_values = {k: [v] for k, v in col_values.items()}
     result = self.BulkAddOrUpdateRecord(table_id, require, col_values, options)
